@@ -98,8 +98,8 @@ NodeEnd(tr, i, limit) ==
             pos == {x \in iv : x[4] > 0}
         IN  IF i + tot >= limit THEN 0
             ELSE IF \E x \in iv : x[3] < 0 \/ x[4] < 0 THEN 0
-            \* every non-empty interval inside the fold's own range
-            ELSE IF \E x \in pos : x[3] < first \/ x[3] + x[4] > first + tot THEN 0
+            \* every interval inside the fold's own range (an empty one still has to sit in it, not before the fold)
+            ELSE IF \E x \in iv : x[3] < first \/ x[3] + x[4] > first + tot THEN 0
             \* pairwise disjoint (with the total length equal to the range this means: a partition)
             ELSE IF \E x, y \in pos : (x[1] # y[1] \/ x[2] # y[2]) /\ x[3] < y[3] + y[4] /\ y[3] < x[3] + x[4] THEN 0
             \* nested entries stay inside the fold's range and are whole nodes
